@@ -254,7 +254,37 @@ Theorem C16_lesser_strict_order : forall a b c p,
 Proof. intros a b c p. split; [exact (lesser_irreflexive a p) | exact (lesser_transitive a b c p)]. Qed.
 Print Assumptions C16_lesser_strict_order.
 
-(* non-vacuity: p = 7, where 5 is the signed representative -2, so 5 < 3 < 4 *)
+(* the Boolean operators form a Boolean algebra on truth values, for ALL integers (an integer is
+   true iff its residue is non-zero): double negation, De Morgan both ways, commutativity,
+   idempotence, contradiction and excluded middle *)
+Theorem C16_boolean_algebra : forall a b p, 2 < p ->
+  not (not a p) p = normalize a p /\
+  not (bool_and a b p) p = bool_or (not a p) (not b p) p /\
+  not (bool_or a b p) p = bool_and (not a p) (not b p) p /\
+  bool_and a b p = bool_and b a p /\
+  bool_or a b p = bool_or b a p /\
+  bool_and a a p = normalize a p /\
+  bool_or a a p = normalize a p /\
+  bool_and a (not a p) p = 0 /\
+  bool_or a (not a p) p = 1.
+Proof. exact boolean_algebra_laws. Qed.
+Print Assumptions C16_boolean_algebra.
+
+(* bitwise operators, all integers, every modulus p > 0 *)
+Theorem C16_bitwise_laws : forall a b p, 0 < p ->
+  bit_and a b p = bit_and b a p /\
+  bit_or a b p = bit_or b a p /\
+  bit_xor a b p = bit_xor b a p /\
+  bit_xor a a p = 0 /\
+  bit_and a a p = modulus a p /\
+  bit_or a a p = modulus a p /\
+  bit_or a 0 p = modulus a p /\
+  bit_xor a 0 p = modulus a p /\
+  bit_and a 0 p = 0.
+Proof. exact bitwise_laws. Qed.
+Print Assumptions C16_bitwise_laws.
+
+(* non-vacuity: p = 7, where 5 is the signed representative -2, and 4 is -3, so 4 < 5 < 3 *)
 Example C16_laws_witnesses :
   prime 7 /\ div 3 5 7 = Ok 2 /\ mul 2 5 7 = 3 /\ div (mul 3 5 7) 5 7 = Ok 3 /\
   lesser 5 3 7 = 1 /\ lesser 3 4 7 = 0 /\ greater 3 4 7 = 1 /\ eq 3 4 7 = 0 /\
